@@ -111,9 +111,11 @@ func (fr *Frame) wfTerms(st *State, t types.Type, c []Term, out *[]Term, depth i
 			*out = append(*out, fr.allocated(st, c[0]))
 		}
 	case *types.Pointer, *types.Map, *types.Chan:
-		*out = append(*out, fr.allocated(st, c[0]))
+		*out = append(*out, fr.allocated(st, c[0]), ILe(IntT(0), c[0]))
 	case *types.Slice:
-		*out = append(*out, fr.allocated(st, c[0]),
+		// slice objects have non-negative ids; string constants live at negative ids, so a
+		// (mutable) slice never aliases constant string data
+		*out = append(*out, fr.allocated(st, c[0]), ILe(IntT(0), c[0]),
 			ILe(IntT(0), c[1]), ILe(c[1], IntT(maxObj)),
 			ILe(IntT(0), c[2]), ILe(c[2], c[3]),
 			ILe(c[3], IntT(maxObj)),
